@@ -154,6 +154,11 @@ ROWS_T = [
     {'gfx': [63, 64], 'gff': [0], 'map': [1], 'sfx': [31, 32],
      'music': list(range(64)), 'label': [1]},
 ]
+TRICKY = (b'-- title \x8e\n-- by\ta\n\na="x\\"y\\065\\n\\x41\\\n z" b=\'q"\' '
+          b'c=[==[\nlong]] ]==] --[[ blk\n]] d=0x1.8 //c\n\x80\x99=1 '
+          b'if (a) ?b\n::l:: goto l\r\nx..=\"\x01\xff\"')
+
+
 def cli(x, p):
     """`p8tool writep8 in.p8` through tool.main: the rewritten cart is byte
     for byte the cart picotool wrote before (all sections, label, version),
@@ -162,7 +167,8 @@ def cli(x, p):
     from props.C13 import cart_text
     tag = x.choice('tag', [1, 77, 127])
     label = x.bool('label')
-    src = cart_text(tag, label=label)
+    code = x.choice('code', [None, TRICKY])
+    src = cart_text(tag, label=label, code=code)
     fs = clikit.MemFS(x, {'/w/in.p8': src})
     rc, exc = clikit.run_main(['writep8', '/w/in.p8'])
     x.check('writep8 succeeds', And(exc is None, rc == 0),
@@ -173,6 +179,23 @@ def cli(x, p):
     if '/w/in_fmt.p8' in fs.files:
         x.check('re-writing the re-read cart gives a byte-identical file',
                 fs.files['/w/in_fmt.p8'] == src)
+        if code is not None:
+            from pico8.lua.lua import Lua as _L
+            from pico8.game.formatter.p8 import P8Formatter as _F
+            got = _F.from_file(hx.MemStream(fs.files['/w/in_fmt.p8']),
+                               filename='x.p8')
+            from pico8.lua import lexer as _lx
+
+            def spell(text):
+                lx = _lx.Lexer(version=8)
+                lx.process_lines([text])
+                return [(type(t).__name__, t.value if isinstance(
+                    t, _lx.TokString) else t.code) for t in lx.tokens]
+            x.check('the code survives byte for byte outside string '
+                    'literals, which keep their value (final newline '
+                    'supplied)',
+                    spell(b''.join(got.lua.to_lines())) ==
+                    spell(code + b'\n'))
         x.check('a label section is present exactly when the cart has a '
                 'label', (b'__label__' in bytes(fs.files['/w/in_fmt.p8']))
                 == label)
